@@ -426,3 +426,72 @@ class ActiveAssociationsTask(Task):
         if ok:
             I.ob(f"{P}/selects-exactly-the-Association-threads-of-this-AE-whatever-their-state",
                  z3.And(conds) == z3.And(probe_a.e, probe_m.e))
+
+
+class WireTitleTask(Task):
+    """The titles the acceptance policy compares come from the wire through the A-ASSOCIATE-RQ title setters: the 16 bytes of
+    the field are decoded AS THEY ARE, only leading/trailing SPACES are removed from the decoded text (PS3.8 Table 9-11:
+    spaces are not significant - nothing else is, not even other white space), the result is validated by set_ae in title mode (C12) and stored; a field of
+    spaces only is refused.  So a field that differs from an authorised title by anything but surrounding spaces (NUL padding,
+    control characters, ...) is either refused or compares unequal."""
+    PDUQ = "pynetdicom.pdu:A_ASSOCIATE_RQ"
+
+    def __init__(self, which, prefix="C13/"):
+        self.which, self.prefix = which, prefix
+        self.fn = f"{self.PDUQ}.{which}_ae_title.fset"
+        self.name = f"A_ASSOCIATE_RQ.{which}_ae_title/from-wire-bytes"
+        self.functions = [self.fn]
+
+    def config(self, repo):
+        c = Config()
+        c.ob_prefix = self.prefix
+
+        def decode_bytes(I, a, k):
+            I.trace.append(Ev("decode_bytes", (a[0],)))
+            d = Env("decoded_text", cls="str")
+            return d
+        c.summaries["pynetdicom.utils:decode_bytes"] = decode_bytes
+
+        def set_ae(I, a, k):
+            I.trace.append(Ev("set_ae", tuple(a), dict(k)))
+            if I.choose(2, "set_ae accepts the title") == 1:
+                raise PyRaise(ExcVal("ValueError", ("invalid AE title",)))
+            return Env("validated_title", cls="str")
+        c.summaries["pynetdicom.utils:set_ae"] = set_ae
+
+        def env_call(I, env, method, args, kw):
+            # any method of the field's bytes or of the decoded text gives a DERIVED value (recorded)
+            if env.path.startswith(("wire_field", "decoded_text")):
+                r = Env(f"{env.path}.{method}({', '.join(map(repr, args))})", cls=env.cls)
+                r.derived_from = (env, method, tuple(args), dict(kw))
+                if method == "strip" and env.path == "decoded_text":
+                    r.truth = I.fresh("bool", "text is not only spaces").e
+                return r
+            return NotImplemented
+        c.env_call = env_call
+        return c
+
+    def body(self, I):
+        P = f"{self.prefix}{self.fn}"
+        me = Env("pdu", cls=I.repo.cls(self.PDUQ))
+        field = Env("wire_field", cls="bytes")
+        kind, val = I.run_function(I.repo.func(self.fn), [me, field])
+        tr = I.trace
+        dec = [e for e in tr if e.name == "decode_bytes"]
+        sae = [e for e in tr if e.name == "set_ae"]
+        I.ob(f"{P}/the-field-is-decoded-exactly-as-received", len(dec) == 1 and dec[0].args[0] is field,
+             detail=repr([getattr(e.args[0], "path", e.args[0]) for e in dec]))
+        if kind == "raise":
+            I.ob(f"{P}/refused-only-with-ValueError", val.cls_name == "ValueError", detail=repr(val))
+            return
+        ok = len(sae) == 1
+        arg = sae[0].args[0] if ok else None
+        how = getattr(arg, "derived_from", None)
+        # spaces only: str.strip() without an argument would also drop tabs, line feeds and the ASCII separators
+        I.ob(f"{P}/only-surrounding-spaces-are-removed-before-validation",
+             ok and how is not None and how[0].path == "decoded_text" and how[1] == "strip" and how[2] == (" ",) and how[3] == {},
+             detail=repr(getattr(arg, "path", arg)))
+        I.ob(f"{P}/validated-in-title-mode:not-empty-not-None", ok and tuple(sae[0].args[2:4]) == (False, False) and not sae[0].kwargs,
+             detail=repr(sae[0].args[1:] if ok else None))
+        stored = [e for e in tr if e.name == "setattr" and e.args[0] == "pdu" and e.args[1] == f"_{self.which}_aet"]
+        I.ob(f"{P}/the-validated-title-is-what-is-stored", len(stored) == 1 and getattr(stored[0].args[2], "path", None) == "validated_title")
